@@ -17,9 +17,15 @@ EXPLANATION = (
     "bounded SMT checking of the symbolically executed real code: accessors (phi, theta, rho, mag, rho2, mag2, t2, costheta, cottheta, t, tau, "
     "beta, gamma, deltaphi, deltaangle) and predicates (is_timelike/lightlike/spacelike, is_parallel/antiparallel/perpendicular) of the object "
     "backend are executed on z3-term coordinates in every coordinate system; z3 (QF_NRA) decides each documented range / sign / classification "
-    "statement for all real operands; definedness obligations decide the 'never NaN' clauses"
+    "statement for all real operands; definedness obligations decide the 'never NaN' clauses; the coordinates stored by vector-valued operations obey the "
+    "same ranges; IEEE guard lane: deltaangle/theta/rho/rho2/mag/mag2/t/t2/tau are executed on an order abstraction of IEEE-754 arithmetic (a fresh z3 "
+    "variable per operation, constrained only by facts valid for every correctly rounded result) and z3 decides that every argument of sqrt/arccos is in "
+    "the domain and the result in range and not NaN under every rounding; an abstract counterexample is reported only if it reproduces on the float64 backend"
 )
-BOUNDS = {"semantics": "exact reals", "outside": "values of float results exactly at +-pi under rounding; NumPy/Awkward backends (shared kernels, C03 lane)"}
+BOUNDS = {
+    "semantics": "exact reals for the clause families; every float64 rounding (order abstraction) for the ieee-guards families",
+    "outside": "values of float phi/deltaphi exactly at +-pi under rounding; ieee-guards: overflow, underflow of squares, zero denominators, arithmetic on infinities; NumPy/Awkward backends (shared kernels, C03 lane)",
+}
 
 
 def _pi(R):
@@ -189,6 +195,72 @@ def f_directional(s1, s2):
     return fn
 
 
+RESULT_OPS = ("scale", "neg", "rotateZ", "add", "subtract", "unit", "to_polar")
+
+
+def f_result_ranges(system, op):
+    """the ranges also hold for the coordinates a vector-valued operation stores in its result (a result is a vector like any other:
+    its phi/theta/rho accessors return the stored numbers)"""
+    d = len(system) + 1
+
+    def fn(R):
+        v = R.vec(system, "1", offaxis=True)
+        c = spec.cart(R.lib, v)
+        if d == 4:
+            R.assume(c[3] > 0)
+            R.assume(spec.tau2(R.lib, c) > 0)
+        if op == "scale":
+            r = v.scale(R.real("k", "nonzero"))
+        elif op == "neg":
+            r = -v
+        elif op == "rotateZ":
+            r = v.rotateZ(R.real("a", "angle"))
+        elif op in ("add", "subtract"):
+            w = R.vec(system, "2", offaxis=True)
+            if d == 4:
+                cw = spec.cart(R.lib, w)
+                R.assume(cw[3] > 0)
+                R.assume(spec.tau2(R.lib, cw) > 0)
+            cw = spec.cart(R.lib, w)
+            sg = 1 if op == "add" else -1
+            # the exact result is representable in polar systems (phi / theta / eta of the result exist)
+            R.assume(((c[0] + sg * cw[0]) != 0) | ((c[1] + sg * cw[1]) != 0))
+            r = getattr(v, op)(w)
+        elif op == "unit":
+            r = v.unit()
+        else:
+            r = {2: lambda: v.to_rhophi(), 3: lambda: v.to_rhophitheta(), 4: lambda: v.to_rhophithetat()}[d]()
+        rs, rc = lanes.stored(r)
+        goals = []
+        if rs[0] == "rhophi":
+            goals += [("result.rho>=0", G.ge(rc[0], 0)), ("result.phi>=-pi", G.ge(rc[1], -_pi(R))), ("result.phi<=pi", G.le(rc[1], _pi(R)))]
+            goals += [("result.phi-accessor", G.true(r.phi is rc[1]))]
+        if len(rs) > 1 and rs[1] == "theta":
+            goals += [("result.theta>=0", G.ge(rc[2], 0)), ("result.theta<=pi", G.le(rc[2], _pi(R)))]
+        if not goals:
+            goals = [("result-is-cartesian", G.true(True))]
+        return goals
+
+    return fn
+
+
+# ---- IEEE guard lane (symx/guard.py): clamps in front of sqrt / arccos under every rounding -----------------------
+
+GUARDED = {
+    # module: (package, result obligation)
+    "deltaangle": ("spatial", "angle"),
+    "theta": ("spatial", "angle"),
+    "rho": ("planar", "nonneg"),
+    "rho2": ("planar", "nonneg"),
+    "mag": ("spatial", "nonneg"),
+    "mag2": ("spatial", "nonneg"),
+    "t": ("lorentz", "nonneg-if-tau"),
+    "t2": ("lorentz", "nonneg"),
+    "tau": ("lorentz", "defined"),
+}
+
+
+
 def families(tier="quick"):
     fams = []
     K = "vector._compute."
@@ -200,6 +272,10 @@ def families(tier="quick"):
         for s in lanes.ALL_SYS[d]:
             n = lanes.sysname(s)
             add(f"phi-range/{n}", f_phi(s), [K + "planar.phi"])
+            for op in RESULT_OPS:
+                if op in ("add", "subtract") and d == 4 and tier != "thorough":
+                    continue  # the 4D kernels reuse the 3D ones for the spatial part
+                add(f"result-ranges/{op}/{n}", f_result_ranges(s, op), [K + f"{('planar', 'spatial', 'lorentz')[d - 2]}.{op}" if op in ("scale", "rotateZ", "add", "subtract", "unit") else "vector._methods.Vector.to_rhophi"])
             add(f"nonneg/{n}", f_nonneg(s), [K + "planar.rho", K + "planar.rho2", K + "spatial.mag", K + "spatial.mag2", K + "lorentz.t2"][: {2: 2, 3: 4, 4: 5}[d]])
             if d >= 3:
                 add(f"theta-range/{n}", f_theta(s), [K + "spatial.theta", K + "spatial.costheta"])
@@ -221,6 +297,10 @@ def families(tier="quick"):
             add(f"deltaangle-range/{lanes.sysname(s1)}|{lanes.sysname(s2)}", f_deltaangle(s1, s2), [K + "spatial.deltaangle"])
             add(f"directional/{lanes.sysname(s1)}|{lanes.sysname(s2)}", f_directional(s1, s2), [K + "spatial.is_parallel", K + "spatial.is_antiparallel", K + "spatial.is_perpendicular"], defd=False)
     # deltaphi through higher-dimensional vectors (same kernel, other wrapper path)
+    from . import guards
+
+    gf, _skipped = guards.families(PID, GUARDED, tier)
+    fams += gf
     add("deltaphi-range/rhophi_eta_tau|xy_z_t", f_deltaphi(("rhophi", "eta", "tau"), ("xy", "z", "t")), [K + "planar.deltaphi"])
     add("deltaphi-range/xy_theta|rhophi_z", f_deltaphi(("xy", "theta"), ("rhophi", "z")), [K + "planar.deltaphi"])
     return fams
